@@ -66,7 +66,8 @@ def invalid_programs() -> list[dict]:
 
 
 def degenerate() -> list[str]:
-    return ["", "\n", "   ", "// only a comment\n", "/* block */", "//?: is-ssb-script: false\n", "//?: key: value\n//?: other: x\n", "//?: key: value",
+    return ["def 1 for actor 1.5 { a(); }", "def 0 for object -1.5 { a(); }", "def 0 for performer 0.5 { a(); }\ndef 1 for_actor(2.0) { b(); }",
+            "", "\n", "   ", "// only a comment\n", "/* block */", "//?: is-ssb-script: false\n", "//?: key: value\n//?: other: x\n", "//?: key: value",
             "def 0 { @l; }", "def 0 { @a; @b; }", "def 0 { §old; }", "def 0 { a(); }\ndef 1 { @l; }", "def 0 {}", "def 0 { ; }", "def 0 { alias previous; }",
             "coro C { @x; }", "macro m() { @l; }\ndef 0 { ~m(); }", "macro m() { }\ndef 0 { ~m(); }", "def 0 { @l; jump @l; }", "def 0 { forever { } }",
             "def 1 { a(); }\ndef 0 { b(); }", "def 2 { a(); }", "def 0 { a(); }\ndef 0 { b(); }", "def -1 { a(); }", "def 0x1 { a(); }", "def 007 { a(); }",
